@@ -35,6 +35,10 @@ class NonTermination(BaseException):
     pass
 
 
+class Vacuous(Exception):
+    """native run outside the obligation's assumptions: counts as holding"""
+
+
 # ---- fix-point watchdog (DESIGN 2.5): an iteration of the sizing loop that fixes nothing leaves the state
 # unchanged, so more than #statements + 1 evaluations of the loop condition proves divergence.
 _WD = {"count": 0, "limit": None}
@@ -185,7 +189,7 @@ def assemble(lines, watchdog=True):
     _WD["count"] = 0
     _WD["limit"] = True if watchdog else None
     try:
-        p.process(list(lines))
+        p.process([l if l.endswith("\n") else l + "\n" for l in lines])   # as SourceFile.readlines() delivers them
     except (ParseError, TranslationError) as e:
         return Outcome("diag", p, e)
     except NonTermination:
@@ -219,10 +223,14 @@ class Ctx:
         self.values = values or {}
         self.lits = []
         self.used = {}
+        self.strict = False     # True: known findings are not accepted (used to replay their witnesses)
+        self.lenient = False    # True: a replay value that is missing defaults to the lower bound
 
     def int(self, name, lo, hi):
         if self.symbolic:
             return fresh_int(name, lo, hi)
+        if name not in self.values and self.lenient:
+            self.values[name] = lo
         v = self.values[name]
         self.used[name] = v
         if not (lo <= v <= hi):
@@ -243,6 +251,18 @@ class Ctx:
             return lit.placeholder_text(), lit.signed(v)
         v = self.int(name, lit.lo, lit.hi)
         return lit.real_text(v), lit.signed(v)
+
+    def assume(self, cond):
+        """discard the case unless cond (symbolic: path ignored; native: the run is vacuous)"""
+        if self.symbolic:
+            from .engine import assume as _assume
+            _assume(cond)
+        elif not cond:
+            raise Vacuous()
+
+    def known(self, prop, tags, envd):
+        from . import known as _known
+        return _known.match(prop, tags, envd, strict=self.strict)
 
     def check_hits(self, required=True):
         """every placeholder must have been parsed through the cut at least once on this path"""
